@@ -16,7 +16,7 @@
     are not expressible here. *)
 From Coq Require Import List NArith Bool Arith.
 Import ListNotations.
-From VDrv Require Import Queue Handoff QueueSafety QueueInv QueueLive QueueRank QueueTerm.
+From VDrv Require Import Queue Handoff QueueSafety QueueInv QueueLive QueueRank QueueTerm QueueStop.
 
 (** ** Safety (both configurations) *)
 
@@ -181,6 +181,29 @@ Proof.
   intros cs ps sched s Hp Hr. exact (i_crash s (run_inv sched _ _ (init_ctx_inv cs ps Hp) Hr)).
 Qed.
 Print Assumptions never_panics.
+
+(** ** Shutdown
+    Driver.Terminate (repaired) hands runAsync its stop signal while runAsync is in
+    its select and then waits until engineRunning is false.  From any reachable
+    state in which it can return ([erunning s = false]), whatever the engine
+    goroutines still do (runAsync is gone, the application has stopped calling),
+    nothing of the driver's state changes: the only step left is the release of
+    engineMutex by a goroutine that has already given up the engine.  So the
+    caller may tear down tracers and recorders.  (On the code before the repair
+    Terminate could return with an engine goroutine in the middle of Driver.Tick:
+    C01 finding teardown-race.) *)
+Theorem after_terminate_engine_idle : forall cs ps sched s sched2 s2,
+  progs_ok (length cs) ps = true -> run cfg_fixed (init_ctx cs ps) sched = Some s ->
+  erunning s = false ->
+  forallb engine_label sched2 = true -> run cfg_fixed s sched2 = Some s2 ->
+  ewait s = 0 /\ (eng s = None \/ eng s = Some EExit) /\ driver_view s2 = driver_view s.
+Proof.
+  intros cs ps sched s sched2 s2 Hp Hr R L H2.
+  pose proof (run_inv sched _ _ (init_ctx_inv cs ps Hp) Hr) as I.
+  destruct (idle_engine s I R) as (W & E). repeat split; auto.
+  exact (run_after_terminate sched2 s s2 I R L H2).
+Qed.
+Print Assumptions after_terminate_engine_idle.
 
 (** ** The hypotheses are satisfiable on non-trivial states *)
 
